@@ -156,7 +156,7 @@ def run_chunk(args):
         elif res["violations"]:
             out["violations"].append({"index": i, "kind": kind, "scenario": None, "forced": st.get("forced", 0), "size": 0, "violations": [
                 {"invariant": v["invariant"], "tags": v.get("tags", {})} for v in res["violations"][:4]]})
-        if len(out["samples"]) < 1 and res.get("nontrivial", True):
+        if len(out["samples"]) < 1 and res.get("nontrivial", True) and (kind == "run" or i == 0):
             out["samples"].append(mod.sample_view(scn, res) if hasattr(mod, "sample_view") else scn)
     out["sigs"] = sorted(out["sigs"])
     out["states"] = sorted(out["states"])
@@ -387,6 +387,8 @@ def run_check(prop, tier, verif_seed, workers=None, runs=None, budget_s=None):
         digests.update(r["digests"])
         if len(samples) < 4:
             samples.extend(r["samples"][: 4 - len(samples)])
+    # show ordinary runs first, at most one statistical scenario
+    samples.sort(key=lambda s_: bool((s_.get("scenario") or s_).get("stat")))
     # pool digests must agree with the in-process ones (third determinism leg)
     for i in range(S):
         if str(i) in digests and digests[str(i)] != first[i]:
